@@ -199,7 +199,7 @@ inline Outcome compare_session(const Case& c, Violations& V, Stats& S, const cha
         bool last = i == P.commit_steps - 1;
         std::string e = step_impl();
         bool expect_ok = !last || P.commit_ok;
-        if (e != "" && i == 0 && P.scripts[0].empty()) { rep("commitment:skipped-for-empty-script", "the session is 'done' before the commitment check because the committed script is empty; the commitment is never verified"); return O; }
+        if (e != "" && i == 0 && P.scripts[0].empty() && !(last && !P.commit_ok)) { rep("commitment:skipped-for-empty-script", "the session is 'done' before the commitment check because the committed script is empty; the commitment is never verified"); return O; }
         if (e != "" && !last) { rep("commitment:path-step-fails", "a path-folding micro-step failed (" + e + ") at micro-step " + std::to_string(i)); return O; }
         if (last && (e == "") != expect_ok) { rep(std::string("commitment:verdict:") + (P.commit_ok ? "valid-rejected" : "invalid-accepted"), "taproot commitment " + std::string(P.commit_ok ? "is valid but the check failed" : "is invalid but the check succeeded")); return O; }
         if (e != "") { O.err = "commitment"; O.fail_step = stepno; S.invalid++; S.outcomes["commitment-failed"]++; if (have_rv && rv == Err::OK) rep("invalid-verdict-for-valid-spend:" + P.type, "commitment failed on a valid spend"); return O; }
